@@ -540,25 +540,30 @@ func (d *Downstream) resume(parentConn *Conn) error {
 	}
 	d.wireConn = parentConn.currentWireConn()
 
+	// the subscriptions are made once per connection; only the request is repeated when the broker
+	// answers RESUME_REQUEST_CONFLICT (subscribing again would fail with "already subscribed")
 	var resErr error
-	retry.Do(func() (end bool) {
-		dpsCh, err := d.wireConn.SubscribeDownstreamChunk(d.ctx, d.idAlias, d.Config.QoS)
-		if err != nil {
-			resErr = fmt.Errorf("failed to SubscribeDownstreamChunk: %w", err)
-			return true
-		}
-		ackCompCh, err := d.wireConn.SubscribeDownstreamChunkAckComplete(d.ctx, d.idAlias)
-		if err != nil {
+	dpsCh, err := d.wireConn.SubscribeDownstreamChunk(d.ctx, d.idAlias, d.Config.QoS)
+	if err != nil {
+		resErr = fmt.Errorf("failed to SubscribeDownstreamChunk: %w", err)
+	}
+	var ackCompCh <-chan *message.DownstreamChunkAckComplete
+	if resErr == nil {
+		if ackCompCh, err = d.wireConn.SubscribeDownstreamChunkAckComplete(d.ctx, d.idAlias); err != nil {
 			resErr = fmt.Errorf("failed to SubscribeDownstreamChunkAckComplete: %w", err)
-			return true
 		}
-
-		metaCh, err := parentConn.subscribeDownstreamMetadata(d.ctx, d.idAlias, d.Config.Filters)
-		if err != nil {
+	}
+	var metaCh <-chan *message.DownstreamMetadata
+	if resErr == nil {
+		if metaCh, err = parentConn.subscribeDownstreamMetadata(d.ctx, d.idAlias, d.Config.Filters); err != nil {
 			resErr = fmt.Errorf("failed to subscribeDownstreamMetadata: %w", err)
-			return true
 		}
-
+	}
+	if resErr != nil {
+		d.closeWithError(d.ctx, resErr)
+		return resErr
+	}
+	retry.Do(func() (end bool) {
 		resp, err := d.wireConn.SendDownstreamResumeRequest(d.ctx, &message.DownstreamResumeRequest{
 			StreamID:             d.ID,
 			DesiredStreamIDAlias: d.idAlias,
